@@ -26,7 +26,12 @@ INT_TYPES = {TT.INT4, TT.INT8, TT.INT16, TT.INT32, TT.INT64}
 
 
 def read(mb):
-    return flatbuffer_utils.read_model_from_bytearray(bytearray(mb))
+    m = flatbuffer_utils.read_model_from_bytearray(bytearray(mb))
+    # the operator's code is the larger of builtin_code and deprecated_builtin_code (files written before TF 2.4 fill the latter only);
+    # this is the TFLite schema's own rule (schema_utils GetBuiltinCode), applied here independently of the library (defect D43)
+    for oc in m.operatorCodes:
+        oc.builtinCode = max(int(oc.builtinCode), int(oc.deprecatedBuiltinCode))
+    return m
 
 
 def tname(t):
